@@ -79,6 +79,11 @@ def family(seed, n):
                     it["env"] = ENVVAR
                 if rnd.random() < 0.2:
                     it["longs"] = it["longs"] + []      # keep
+            # a group header of two paragraphs whose first one has a line break (title, description): the short form
+            # keeps the first paragraph of the header and everything of the items under it
+            if lvl["named"] and k % 3 == 0:
+                it = lvl["named"][(k // 3) % len(lvl["named"])]
+                it["group_help"] = pe(f"P1xg{k} title of the group\ndescribed on a second line\n\n{LATER}P2xg{k} {LATER}more {LATER}about {LATER}it")
             for p in lvl["tail"].get("items", []):
                 k += 1
                 p["help"] = text(rnd, f"p{k}")
